@@ -20,8 +20,8 @@ Fixpoint elems (m : Z) (i k : nat) (p : prog) : list qelem :=
 
 Definition inflight (k : cpc) : list qelem := match k with CWrite x => [x] | _ => [] end.
 
-(* what send returns in the model for a call: false exactly when the level is enabled *)
-Definition ret_of (m : Z) (l : Z * text) : bool := negb (enabled m (fst l)).
+(* what send returns in the model for a call: true (from try_push at an enabled level, the constant otherwise) *)
+Definition ret_of (m : Z) (l : Z * text) : bool := true.
 
 Definition prefix {A} (a b : list A) : Prop := exists t, b = a ++ t.
 
@@ -132,7 +132,7 @@ Proof.
         exists (done ++ [(lev, txt)]). cbn [todo pidx rets].
         split; [rewrite Hp, Etodo, <- app_assoc; reflexivity|].
         split; [rewrite app_length; cbn; lia|].
-        split; [rewrite map_app, Hrets; cbn; unfold ret_of; cbn; rewrite Een; reflexivity|].
+        split; [rewrite map_app, Hrets; cbn; reflexivity|].
         rewrite filter_snoc. unfold from at 2. cbn [q_src x]. rewrite Nat.eqb_refl.
         rewrite Hfil, elems_app. cbn [elems]. rewrite Een, Hlen. reflexivity.
       * rewrite (upd_other _ _ _ _ _ Hij). specialize (Hpr j).
@@ -170,13 +170,14 @@ Proof.
       exists (done ++ [(lev, txt)]). cbn [todo pidx rets].
       split; [rewrite Hp, Etodo, <- app_assoc; reflexivity|].
       split; [rewrite app_length; cbn; lia|].
-      split; [rewrite map_app, Hrets; cbn; unfold ret_of; cbn; rewrite Een; reflexivity|].
+      split; [rewrite map_app, Hrets; cbn; reflexivity|].
       rewrite Hfil, elems_app. cbn [elems]. rewrite Een, app_nil_r. reflexivity.
     + rewrite (upd_other _ _ _ _ _ Hij). exact (Hpr j).
 Qed.
 
 Ltac exit_goal Hd := let H := fresh in intros H; try reflexivity; try (rewrite Hd in H; contradiction H; reflexivity).
 Ltac done_goal Hdn := let H := fresh in intros H; try reflexivity; try (apply Hdn in H; discriminate).
+Ltac fields := cbn [set_cons mask prods queue stopping cons seqno file stopper pushed wrote dropped inflight].
 
 Lemma Inv_step_cons : forall m ps0 c, Inv m ps0 c -> Inv m ps0 (step_cons c).
 Proof.
@@ -186,35 +187,34 @@ Proof.
     (assert (Hd : dropped c = []) by
       (destruct (dropped c); [reflexivity|];
        match type of Hex with _ -> ?k = CExit => assert (k = CExit) by (apply Hex; discriminate); discriminate end)).
-  - (* CTest *)
-    destruct (stopping c); constructor;
-      cbn [set_cons mask prods queue stopping cons seqno file stopper pushed wrote dropped inflight]; try assumption.
-    + exit_goal Hd.
-    + done_goal Hdn.
-    + exit_goal Hd.
-    + done_goal Hdn.
   - (* CPop *)
     destruct (queue c) as [|x q'] eqn:Eq.
-    + constructor; cbn [set_cons mask prods queue stopping cons seqno file stopper pushed wrote dropped inflight]; try assumption.
+    + constructor; fields; try assumption.
       * rewrite Eq. exact Hfifo.
       * exit_goal Hd.
       * done_goal Hdn.
     + destruct Htext as [Ht1 Ht2].
       destruct (q_text x) as [|b bs] eqn:Ex.
-      * constructor; cbn [mask prods queue stopping cons seqno file stopper pushed wrote dropped inflight]; try assumption.
+      * constructor; fields; try assumption.
         -- rewrite Hfifo, Hd. cbn. reflexivity.
         -- split; [exact Ht1|]. intros y Hy. apply in_app_or in Hy. destruct Hy as [Hy|[<-|[]]]; auto.
         -- exit_goal Hd.
         -- done_goal Hdn.
-      * constructor; cbn [mask prods queue stopping cons seqno file stopper pushed wrote dropped inflight]; try assumption.
+      * constructor; fields; try assumption.
         -- rewrite Hfifo, Hd. cbn. reflexivity.
         -- split; [|exact Ht2]. intros y Hy. rewrite app_nil_r in Ht1. apply in_app_or in Hy.
            destruct Hy as [Hy|[<-|[]]]; [apply Ht1; assumption|]. rewrite Ex. discriminate.
         -- exit_goal Hd.
         -- done_goal Hdn.
+  - (* CChk *)
+    destruct (stopping c); constructor; fields; try assumption.
+    + exit_goal Hd.
+    + done_goal Hdn.
+    + exit_goal Hd.
+    + done_goal Hdn.
   - (* CWrite x *)
     destruct Hfile as [Hf1 [Hf2 Hf3]]. destruct Htext as [Ht1 Ht2].
-    constructor; cbn [mask prods queue stopping cons seqno file stopper pushed wrote dropped inflight]; try assumption.
+    constructor; fields; try assumption.
     + rewrite Hfifo. rewrite <- !app_assoc. reflexivity.
     + rewrite !map_app, Hf1, Hf2, Hf3, app_length. cbn. split; [reflexivity|]. split; [|lia].
       rewrite Nat.add_1_r. rewrite seq_S. reflexivity.
@@ -228,10 +228,9 @@ Proof.
   intros m ps0 c HI. unfold step_stop.
   destruct (stopper c) eqn:Es.
   - destruct HI as [Hm Hpr Hsrc Hfifo Hfile Htext Hex Hdn Hnd].
-    constructor; cbn [mask prods queue stopping cons seqno file stopper pushed wrote dropped]; try assumption.
-    discriminate.
+    constructor; fields; try assumption. discriminate.
   - destruct HI as [Hm Hpr Hsrc Hfifo Hfile Htext Hex Hdn Hnd]. cbn [enqueue try_push].
-    constructor; cbn [mask prods queue stopping cons seqno file stopper pushed wrote dropped]; try assumption.
+    constructor; fields; try assumption.
     + intros j. specialize (Hpr j). destruct (nth_error ps0 j), (nth_error (prods c) j); cbn in *; auto.
       eapply PInv_irrel; [|exact Hpr]. rewrite filter_snoc. cbn. rewrite app_nil_r. reflexivity.
     + intros y Hy. apply in_app_or in Hy. destruct Hy as [Hy|[<-|[]]]; [apply Hsrc; assumption|]. reflexivity.
@@ -241,8 +240,7 @@ Proof.
   - destruct (cons c) eqn:Ec; try exact HI.
     destruct HI as [Hm Hpr Hsrc Hfifo Hfile Htext Hex Hdn Hnd].
     rewrite Ec in *.
-    constructor; cbn [mask prods queue stopping cons seqno file stopper pushed wrote dropped]; try assumption;
-      intros; reflexivity.
+    constructor; fields; try assumption; intros; reflexivity.
   - exact HI.
 Qed.
 
@@ -331,138 +329,331 @@ Proof.
   intros x Hx. destruct (wrote_origin _ _ _ _ HI Hx) as [i [k [p [lev [A _]]]]]. unfold is_prod. rewrite A. reflexivity.
 Qed.
 
-(* the return values: false exactly for the calls at an enabled level *)
+
+(* the return values: every completed call returned true *)
 Lemma c28_return_exact_lemma : forall m ps sched i p, nth_error ps i = Some p ->
   exists st done, nth_error (prods (run sched (init m ps))) i = Some st /\
-                  p = done ++ todo st /\ rets st = map (fun l => negb (enabled m (fst l))) done.
+                  p = done ++ todo st /\ rets st = map (fun _ => true) done.
 Proof.
   intros m ps sched i p Hp. pose proof (Inv_reach m ps sched) as HI.
   destruct (prod_state _ _ _ _ _ HI Hp) as [st [Hst [done [A [_ [B _]]]]]].
   exists st, done. split; [exact Hst|]. split; [exact A|exact B].
 Qed.
 
-(* ------------------------------------------------------------------ stop after the queue was drained *)
-Definition quiesced (c : config) : bool :=
-  match stopper c with
-  | SIdle => negb (stopping c) && match cons c with CExit => false | _ => true end &&
-             match queue c with [] => true | _ => false end &&
-             forallb (fun st => match todo st with [] => true | _ => false end) (prods c)
-  | _ => false
-  end.
+Definition all_done (c : config) : bool :=
+  forallb (fun st => match todo st with [] => true | _ => false end) (prods c).
 
-Record Q (c1 c : config) : Prop := {
-  q_todo : forall i st, nth_error (prods c) i = Some st -> todo st = [];
-  q_sent : forall x, In x (queue c ++ dropped c) -> q_src x = None;
-  q_same : forall i, filter (from i) (pushed c) = filter (from i) (pushed c1) }.
+Lemma rets_ok1_true : forall m p, rets_ok1 m p (map (fun _ => true) p) = true.
+Proof. induction p as [|[lev t] p IH]; cbn; [reflexivity|]. rewrite IH. destruct (enabled m lev); reflexivity. Qed.
 
-Lemma Q_step : forall m ps c1 c t, Inv m ps c -> Q c1 c -> Q c1 (step c t).
+(* the oracle's return-value clause, once every producer has made all its calls *)
+Lemma c28_return_ok_lemma : forall m ps sched,
+  all_done (run sched (init m ps)) = true ->
+  rets_ok m ps (o_rets (observe (run sched (init m ps)))) = true.
 Proof.
-  intros m ps c1 c [i| |] HI [Qt Qs Qp]; cbn [step].
-  - unfold step_prod. destruct (nth_error (prods c) i) as [st|] eqn:E; [|constructor; assumption].
-    rewrite (Qt _ _ E). constructor; assumption.
-  - unfold step_cons. destruct (cons c) eqn:Ec.
-    + destruct (stopping c); constructor; cbn; assumption.
-    + destruct (queue c) as [|x q'] eqn:Eq. { constructor; cbn; try assumption. rewrite Eq. exact Qs. }
-      destruct (q_text x) eqn:Ex; constructor; cbn [prods queue dropped pushed]; try assumption.
-      * intros y Hy. apply Qs. apply in_app_or in Hy. destruct Hy as [Hy|Hy].
-        -- apply in_or_app. left. right. exact Hy.
-        -- apply in_app_or in Hy. destruct Hy as [Hy|[<-|[]]]; [apply in_or_app; right; exact Hy|].
-           apply in_or_app. left. left. reflexivity.
-      * intros y Hy. apply Qs. apply in_app_or in Hy. destruct Hy as [Hy|Hy].
-        -- apply in_or_app. left. right. exact Hy.
-        -- apply in_or_app. right. exact Hy.
-    + constructor; cbn; assumption.
-    + constructor; assumption.
-  - unfold step_stop. destruct (stopper c) eqn:Es.
-    + constructor; cbn; assumption.
-    + cbn [enqueue try_push]. constructor; cbn [prods queue dropped pushed]; try assumption.
-      * intros y Hy. rewrite <- app_assoc in Hy. apply in_app_or in Hy. destruct Hy as [Hy|Hy].
-        -- apply Qs. apply in_or_app. left. exact Hy.
-        -- destruct Hy as [<-|Hy]; [reflexivity|]. apply Qs. apply in_or_app. right. exact Hy.
-      * intros j. rewrite filter_snoc. cbn. rewrite app_nil_r. apply Qp.
-    + destruct (cons c); constructor; cbn; assumption.
-    + constructor; assumption.
+  intros m ps sched Hd. pose proof (Inv_reach m ps sched) as HI. set (c := run sched (init m ps)) in *.
+  cbn [observe o_rets]. unfold all_done in Hd. rewrite forallb_forall in Hd.
+  pose proof (i_prods _ _ _ HI) as Hp.
+  assert (G : forall (ps0 : list prog) (l : list pstate),
+            (forall i, orel (fun p st => todo st = [] -> rets st = map (fun _ => true) p) (nth_error ps0 i) (nth_error l i)) ->
+            (forall st, In st l -> todo st = []) -> rets_ok m ps0 (map rets l) = true).
+  { induction ps0 as [|p ps0 IH]; intros [|st l] H Ht; cbn.
+    - reflexivity.
+    - specialize (H 0). cbn in H. contradiction.
+    - specialize (H 0). cbn in H. contradiction.
+    - pose proof (H 0) as H0. cbn in H0. rewrite (H0 (Ht st (or_introl eq_refl))), rets_ok1_true. cbn.
+      apply IH; [intros i; exact (H (S i))|intros; apply Ht; right; assumption]. }
+  apply G.
+  - intros i. specialize (Hp i). unfold orel in *.
+    destruct (nth_error (prods c) i) as [st|] eqn:E1; destruct (nth_error ps i) as [p|] eqn:E2; auto.
+    destruct Hp as [done [A [_ [B _]]]]. intros Ht. rewrite Ht, app_nil_r in A. subst done. exact B.
+  - intros st Hst. specialize (Hd st Hst). destruct (todo st); [reflexivity|discriminate].
 Qed.
 
-Lemma Q_run : forall m ps c1 sched c, Inv m ps c -> Q c1 c -> Inv m ps (run sched c) /\ Q c1 (run sched c).
+(* ------------------------------------------------------------------ every line accepted before stop() is written *)
+(* no program submits an empty text at an enabled level (that text is the stop marker: finding
+   C28-empty-line-stops-logger) *)
+Definition no_marker (m : Z) (ps : list prog) : bool :=
+  forallb (fun p => forallb (fun l => negb (enabled m (fst l)) || match snd l with [] => false | _ => true end) p) ps.
+
+Record Jnv (c : config) : Prop := {
+  j_idle : stopper c = SIdle -> stopping c = false /\ after_stop c = [];
+  j_req : stopper c <> SIdle -> stopping c = true /\ pushed c = at_stop c ++ after_stop c;
+  j_at : forall x, In x (at_stop c) -> is_prod x = true;
+  j_chk : cons c = CChk -> queue c = win c;
+  j_exit : cons c = CExit -> stopper c <> SIdle /\
+           forall y, In y (queue c) -> In y (win c) \/ In y (after_stop c);
+  j_none : forall y, In y (pushed c) -> q_src y = None -> In y (after_stop c) }.
+
+Lemma Jnv_init : forall m ps, Jnv (init m ps).
 Proof.
-  induction sched as [|t sched IH]; intros c HI HQ; cbn; [split; assumption|].
-  apply IH; [apply Inv_step; assumption|eapply Q_step; eassumption].
+  intros. constructor; cbn; auto; try discriminate; try (intros ? []); try (intros H; contradiction H; reflexivity).
 Qed.
 
-Lemma c28_all_written_partial_lemma : forall m ps s1 s2,
+Section AllWritten.
+Variables (m : Z) (ps : list prog).
+Hypothesis NM : no_marker m ps = true.
+
+Lemma pushed_prod_text : forall c x, Inv m ps c -> In x (pushed c) -> is_prod x = true -> q_text x <> [].
+Proof.
+  intros c x HI Hx Hp. unfold is_prod in Hp. pose proof (i_src _ _ _ HI x Hx) as Hs.
+  destruct (q_src x) as [[i k0]|] eqn:Esrc; [|discriminate].
+  destruct (nth_error ps i) as [p|] eqn:Ep; [|apply nth_error_None in Ep; lia].
+  destruct (prod_state _ _ _ _ _ HI Ep) as [st [_ [done [Hsplit [_ [_ Hfil]]]]]].
+  assert (Fx : In x (filter (from i) (pushed c))).
+  { apply filter_In. split; [exact Hx|]. unfold from. rewrite Esrc. apply Nat.eqb_refl. }
+  rewrite Hfil in Fx. destruct (elems_in _ _ _ _ _ Fx) as [j [lev [_ [B C]]]].
+  assert (Hin : In (lev, q_text x) p).
+  { rewrite Hsplit. apply in_or_app. left. eapply nth_error_In. exact B. }
+  unfold no_marker in NM. rewrite forallb_forall in NM. specialize (NM p (nth_error_In _ _ Ep)).
+  rewrite forallb_forall in NM. specialize (NM _ Hin). cbn in NM. rewrite C in NM. cbn in NM.
+  destruct (q_text x); [discriminate|discriminate].
+Qed.
+
+Lemma Jnv_step : forall c t, Inv m ps c -> Jnv c -> Jnv (step c t).
+Proof.
+  intros c t HI HJ. pose proof HJ as [Jidle Jreq Jat Jchk Jexit Jnone]. destruct t as [i| |]; cbn [step].
+  - (* producer *)
+    unfold step_prod. destruct (nth_error (prods c) i) as [st|]; [|exact HJ].
+    destruct (todo st) as [|[lev txt] rest]; [exact HJ|].
+    destruct (enabled (mask c) lev); [|constructor; cbn; assumption].
+    cbn [enqueue try_push]. set (x := {| q_src := Some (i, pidx st); q_text := txt |}).
+    constructor; cbn [stopper stopping after_stop pushed at_stop cons queue win].
+    + intros E. unfold g_after. rewrite E. apply Jidle. exact E.
+    + intros E. destruct (Jreq E) as [A B]. split; [exact A|]. unfold g_after.
+      destruct (stopper c); [contradiction E; reflexivity| | |]; rewrite B, app_assoc; reflexivity.
+    + exact Jat.
+    + intros E. unfold g_win. rewrite E. rewrite (Jchk E). reflexivity.
+    + intros E. destruct (Jexit E) as [A B]. split; [exact A|]. intros y Hy. apply in_app_or in Hy.
+      unfold g_win, g_after. rewrite E.
+      destruct Hy as [Hy|[<-|[]]].
+      * destruct (B y Hy) as [H|H]; [left; exact H|right].
+        destruct (stopper c); [exact H| | |]; apply in_or_app; left; exact H.
+      * right. destruct (stopper c); [contradiction A; reflexivity| | |]; apply in_or_app; right; left; reflexivity.
+    + intros y Hy Hn. apply in_app_or in Hy. destruct Hy as [Hy|[<-|[]]]; [|discriminate].
+      unfold g_after. specialize (Jnone y Hy Hn). destruct (stopper c); [exact Jnone| | |]; apply in_or_app; left; exact Jnone.
+  - (* consumer *)
+    unfold step_cons. destruct (cons c) as [| |x|] eqn:Ec.
+    + (* CPop *)
+      destruct (queue c) as [|x q'] eqn:Eq.
+      * constructor; cbn [set_cons stopper stopping after_stop pushed at_stop cons queue win]; try assumption.
+        -- intros _. exact Eq.
+        -- discriminate.
+      * destruct (q_text x) as [|b bs] eqn:Ex.
+        -- (* the element that ends the loop: by NM it is the marker of stop() *)
+           assert (Hxp : In x (pushed c)).
+           { rewrite (i_fifo _ _ _ HI), Eq. apply in_or_app. right. apply in_or_app. right. apply in_or_app. right. left. reflexivity. }
+           assert (Hxn : q_src x = None).
+           { destruct (q_src x) eqn:Es; [|reflexivity]. exfalso.
+             apply (pushed_prod_text c x HI Hxp); [unfold is_prod; rewrite Es; reflexivity|exact Ex]. }
+           pose proof (Jnone x Hxp Hxn) as Hxa.
+           assert (Hns : stopper c <> SIdle).
+           { intro E. destruct (Jidle E) as [_ A]. rewrite A in Hxa. inversion Hxa. }
+           destruct (Jreq Hns) as [_ Hsplit].
+           assert (Hd : dropped c = []).
+           { destruct (dropped c) eqn:Ed; [reflexivity|].
+             assert (cons c = CExit) by (apply (i_exit _ _ _ HI); rewrite Ed; discriminate). congruence. }
+           constructor; cbn [stopper stopping after_stop pushed at_stop cons queue win]; try assumption.
+           ++ discriminate.
+           ++ intros _. split; [exact Hns|]. intros y Hy. right.
+              (* pushed = at_stop ++ after_stop = (wrote ++ ...) ++ x :: q' *)
+              pose proof (i_fifo _ _ _ HI) as Hf. rewrite Ec, Hd, Eq in Hf. cbn [inflight app] in Hf.
+              rewrite Hsplit in Hf. apply app_eq_app in Hf. destruct Hf as [l [[A B]|[A B]]].
+              ** (* at_stop = wrote ++ l,  x :: q' = l ++ after_stop *)
+                 destruct l as [|z l].
+                 --- cbn in B. rewrite <- B. right. exact Hy.
+                 --- cbn in B. injection B as B1 B2. subst z. exfalso.
+                     assert (is_prod x = true) by (apply Jat; rewrite A; apply in_or_app; right; left; reflexivity).
+                     unfold is_prod in H. rewrite Hxn in H. discriminate.
+              ** (* wrote = at_stop ++ l,  after_stop = l ++ x :: q' *)
+                 rewrite B. apply in_or_app. right. right. exact Hy.
+        -- constructor; cbn [stopper stopping after_stop pushed at_stop cons queue win]; try assumption; discriminate.
+    + (* CChk *)
+      case_eq (stopping c); intros Est.
+      * constructor; cbn [set_cons stopper stopping after_stop pushed at_stop cons queue win]; try assumption.
+        -- discriminate.
+        -- intros _. split.
+           ++ intro E. destruct (Jidle E) as [A _]. congruence.
+           ++ intros y Hy. left. rewrite <- (Jchk eq_refl). exact Hy.
+      * constructor; cbn [set_cons stopper stopping after_stop pushed at_stop cons queue win]; try assumption; discriminate.
+    + constructor; cbn [stopper stopping after_stop pushed at_stop cons queue win]; try assumption; discriminate.
+    + exact HJ.
+  - (* stop() *)
+    unfold step_stop. destruct (stopper c) eqn:Es.
+    + (* request_stop *)
+      destruct (Jidle eq_refl) as [_ Ha].
+      constructor; cbn [stopper stopping after_stop pushed at_stop cons queue win]; try assumption.
+      * discriminate.
+      * intros _. split; [reflexivity|]. rewrite app_nil_r. reflexivity.
+      * intros y Hy. destruct (is_prod y) eqn:E; [reflexivity|]. exfalso.
+        unfold is_prod in E. destruct (q_src y) eqn:Esy; [discriminate|].
+        pose proof (Jnone y Hy Esy) as H. rewrite Ha in H. inversion H.
+      * intros E. destruct (Jexit E) as [A _]. contradiction A; reflexivity.
+      * intros y Hy Hn. pose proof (Jnone y Hy Hn) as H. rewrite Ha in H. inversion H.
+    + (* enqueue("") *)
+      cbn [enqueue try_push]. assert (Hns : SReq <> SIdle) by discriminate. destruct (Jreq Hns) as [A B].
+      constructor; cbn [stopper stopping after_stop pushed at_stop cons queue win]; try assumption.
+      * discriminate.
+      * intros _. split; [exact A|]. rewrite B, app_assoc. reflexivity.
+      * intros E. unfold g_win. rewrite E, (Jchk E). reflexivity.
+      * intros E. split; [discriminate|]. destruct (Jexit E) as [_ C]. intros y Hy. unfold g_win. rewrite E.
+        apply in_app_or in Hy. destruct Hy as [Hy|[<-|[]]].
+        -- destruct (C y Hy) as [H|H]; [left; exact H|right; apply in_or_app; left; exact H].
+        -- right. apply in_or_app. right. left. reflexivity.
+      * intros y Hy Hn. apply in_app_or in Hy. destruct Hy as [Hy|[<-|[]]].
+        -- apply in_or_app. left. apply Jnone; assumption.
+        -- apply in_or_app. right. left. reflexivity.
+    + destruct (cons c) eqn:Ec; try exact HJ.
+      assert (Hns : SPushed <> SIdle) by discriminate. destruct (Jreq Hns) as [A B].
+      constructor; cbn [stopper stopping after_stop pushed at_stop cons queue win]; try assumption.
+      * discriminate.
+      * intros _. split; assumption.
+      * intros _. split; [discriminate|]. first [destruct (Jexit eq_refl) as [_ C]|destruct (Jexit Ec) as [_ C]]. exact C.
+    + exact HJ.
+Qed.
+
+Lemma Jnv_reach : forall sched, Jnv (run sched (init m ps)).
+Proof.
+  intros sched.
+  assert (G : forall sched c, Inv m ps c -> Jnv c -> Jnv (run sched c)).
+  { induction sched0 as [|t sched0 IH]; intros c HI HJ; cbn; [exact HJ|].
+    apply IH; [apply Inv_step; exact HI|apply Jnv_step; assumption]. }
+  apply G; [apply Inv_init|apply Jnv_init].
+Qed.
+
+Lemma NoDup_src_split : forall (a b : list qelem) x,
+  NoDup (map q_src (filter is_prod (a ++ b))) -> is_prod x = true -> In x a -> In x b -> False.
+Proof.
+  intros a b x Hn Hp Ha Hb. rewrite filter_app, map_app in Hn.
+  assert (A : In (q_src x) (map q_src (filter is_prod a))) by (apply in_map; apply filter_In; split; assumption).
+  assert (B : In (q_src x) (map q_src (filter is_prod b))) by (apply in_map; apply filter_In; split; assumption).
+  clear - Hn A B. induction (map q_src (filter is_prod a)) as [|y l IH]; [inversion A|].
+  cbn in Hn. inversion Hn; subst. destruct A as [->|A].
+  - apply H1. apply in_or_app. right. exact B.
+  - apply IH; assumption.
+Qed.
+
+(* When stop() has returned, every element that was in the queue history at the moment stop()
+   executed _stopping.request_stop() has been written, except those pushed in the window between
+   the consumer's last (unsuccessful) try_pop and its test of _stopping. *)
+Lemma c28_all_written_lemma : forall sched,
+  let c := run sched (init m ps) in
+  stopper c = SDone ->
+  forall x, In x (at_stop c) -> In x (wrote c) \/ In x (win c).
+Proof.
+  intros sched c Hdone x Hx.
+  pose proof (Inv_reach m ps sched) as HI. pose proof (Jnv_reach sched) as HJ. fold c in HI, HJ.
+  pose proof (i_done _ _ _ HI Hdone) as Hc.
+  assert (Hns : stopper c <> SIdle) by (rewrite Hdone; discriminate).
+  destruct (j_req _ HJ Hns) as [_ Hsplit].
+  assert (Hxp : In x (pushed c)) by (rewrite Hsplit; apply in_or_app; left; exact Hx).
+  pose proof (j_at _ HJ x Hx) as Hprod.
+  pose proof (i_fifo _ _ _ HI) as Hf. rewrite Hc in Hf. cbn [inflight app] in Hf.
+  rewrite Hf in Hxp. apply in_app_or in Hxp. destruct Hxp as [Hw|Hxp]; [left; exact Hw|].
+  apply in_app_or in Hxp. destruct Hxp as [Hd|Hq].
+  - exfalso. apply (pushed_prod_text c x HI); [rewrite Hsplit; apply in_or_app; left; exact Hx|exact Hprod|].
+    apply (proj2 (i_text _ _ _ HI)). exact Hd.
+  - destruct (j_exit _ HJ Hc) as [_ B]. destruct (B x Hq) as [H|H]; [right; exact H|].
+    exfalso. eapply NoDup_src_split; [|exact Hprod|exact Hx|exact H]. rewrite <- Hsplit. exact (i_nodup _ _ _ HI).
+Qed.
+End AllWritten.
+
+(* ------------------------------------------------------------------ what [at_stop] is *)
+Lemma at_stop_step : forall c t, stopper c <> SIdle ->
+  at_stop (step c t) = at_stop c /\ stopper (step c t) <> SIdle.
+Proof.
+  intros c [i| |] H; cbn [step].
+  - unfold step_prod. destruct (nth_error (prods c) i) as [st|]; [|auto].
+    destruct (todo st) as [|[lev txt] rest]; [auto|].
+    destruct (enabled (mask c) lev); cbn; auto.
+  - unfold step_cons. destruct (cons c); [destruct (queue c) as [|x q']; [cbn; auto|destruct (q_text x); cbn; auto]
+                                         |destruct (stopping c); cbn; auto|cbn; auto|auto].
+  - unfold step_stop. destruct (stopper c) eqn:E; [contradiction H; reflexivity|cbn; split; [reflexivity|discriminate]| |].
+    + destruct (cons c); cbn; rewrite ?E; split; try reflexivity; try discriminate; rewrite E; discriminate.
+    + rewrite E. split; [reflexivity|discriminate].
+Qed.
+
+(* [at_stop] is the queue history at the moment stop() executed _stopping.request_stop() *)
+Lemma c28_at_stop_lemma : forall c1 s2, stopper c1 = SIdle ->
+  at_stop (run s2 (step c1 Stop)) = pushed c1.
+Proof.
+  intros c1 s2 H.
+  assert (G : forall s c, stopper c <> SIdle -> at_stop (run s c) = at_stop c).
+  { induction s as [|t s IH]; intros c Hc; cbn; [reflexivity|].
+    destruct (at_stop_step c t Hc) as [A B]. rewrite IH by exact B. exact A. }
+  rewrite G.
+  - cbn [step]. unfold step_stop. rewrite H. reflexivity.
+  - cbn [step]. unfold step_stop. rewrite H. cbn. discriminate.
+Qed.
+
+Lemma elems_NoDup : forall m i p k, NoDup (elems m i k p).
+Proof.
+  induction p as [|[lev t] p IH]; intros k; cbn [elems]; [constructor|].
+  destruct (enabled m lev); [|apply IH]. constructor; [|apply IH].
+  intro H. destruct (elems_in _ _ _ _ _ H) as [j [l [A _]]]. cbn in A. injection A as A. lia.
+Qed.
+
+Lemma prefix_full : forall A (a b : list A), prefix a b -> NoDup b -> (forall x, In x b -> In x a) -> a = b.
+Proof.
+  intros A a b [t ->] Hn Hi. destruct t as [|y t]; [rewrite app_nil_r; reflexivity|]. exfalso.
+  assert (In y a) by (apply Hi; apply in_or_app; right; left; reflexivity).
+  clear - Hn H. induction a as [|z a IH]; [inversion H|]. cbn in Hn. inversion Hn; subst.
+  destruct H as [->|H]; [apply H2; apply in_or_app; right; left; reflexivity|apply IH; assumption].
+Qed.
+
+(* stop() called after every producer has made all its calls: when it has returned, every line
+   submitted at an enabled level is written, in order (unless a push fell into the window) *)
+Lemma c28_all_written_done_lemma : forall m ps s1 s2,
+  no_marker m ps = true ->
   let c1 := run s1 (init m ps) in
-  quiesced c1 = true ->
-  let c2 := run s2 c1 in
-  stopper c2 = SDone ->
+  stopper c1 = SIdle -> all_done c1 = true ->
+  let c2 := run s2 (step c1 Stop) in
+  stopper c2 = SDone -> win c2 = [] ->
   forall i p, nth_error ps i = Some p -> filter (from i) (wrote c2) = elems m i 0 p.
 Proof.
-  intros m ps s1 s2 c1 Hq c2 Hdone i p Hp.
+  intros m ps s1 s2 NM c1 Hidle Hdone c2 Hs Hw i p Hp.
+  assert (E : c2 = run (s1 ++ Stop :: s2) (init m ps)).
+  { unfold c2, c1, run. rewrite fold_left_app. reflexivity. }
+  pose proof (c28_order_lemma m ps (s1 ++ Stop :: s2) i p Hp) as [Hpre _]. rewrite <- E in Hpre.
+  apply prefix_full; [exact Hpre|apply elems_NoDup|].
+  intros x Hx.
+  (* x was pushed before the stop request *)
   pose proof (Inv_reach m ps s1) as HI1. fold c1 in HI1.
-  unfold quiesced in Hq. destruct (stopper c1) eqn:Es1; try discriminate.
-  apply andb_prop in Hq. destruct Hq as [Hq Htodo]. apply andb_prop in Hq. destruct Hq as [Hq Hqueue].
-  apply andb_prop in Hq. destruct Hq as [_ Hcons].
-  assert (Hq1 : queue c1 = []) by (destruct (queue c1); [reflexivity|discriminate]).
-  assert (Hd1 : dropped c1 = []).
-  { destruct (dropped c1) eqn:Ed; [reflexivity|].
-    assert (cons c1 = CExit) by (apply (i_exit _ _ _ HI1); rewrite Ed; discriminate).
-    rewrite H in Hcons. discriminate. }
-  assert (HQ1 : Q c1 c1).
-  { constructor.
-    - intros j st Hst. rewrite forallb_forall in Htodo. apply nth_error_In in Hst. specialize (Htodo st Hst).
-      destruct (todo st); [reflexivity|discriminate].
-    - rewrite Hq1, Hd1. intros x [].
-    - reflexivity. }
-  destruct (Q_run m ps c1 s2 c1 HI1 HQ1) as [HI2 HQ2]. fold c2 in HI2, HQ2.
-  (* at c1 everything of producer i has been pushed *)
   destruct (prod_state _ _ _ _ _ HI1 Hp) as [st [Hst [done [Hsplit [_ [_ Hfil]]]]]].
-  rewrite (q_todo _ _ HQ1 _ _ Hst), app_nil_r in Hsplit. subst done.
-  rewrite <- Hfil, <- (q_same _ _ HQ2 i).
-  (* at c2 the consumer has exited: nothing in flight; queue and dropped hold only the stop marker *)
-  pose proof (i_done _ _ _ HI2 Hdone) as Hc2. rewrite (i_fifo _ _ _ HI2), Hc2. cbn [inflight app].
-  rewrite filter_app.
-  assert (E : filter (from i) (dropped c2 ++ queue c2) = []).
-  { rewrite filter_app. assert (F : forall l, (forall x, In x l -> q_src x = None) -> filter (from i) l = []).
-    { induction l as [|a l IH]; intros H; cbn; [reflexivity|]. unfold from at 1. rewrite (H a (or_introl eq_refl)).
-      apply IH. intros; apply H; right; assumption. }
-    rewrite !F; [reflexivity| |]; intros x Hx; apply (q_sent _ _ HQ2); apply in_or_app; [left|right]; exact Hx. }
-  rewrite E, app_nil_r. reflexivity.
+  assert (Ht : todo st = []).
+  { unfold all_done in Hdone. rewrite forallb_forall in Hdone. specialize (Hdone st (nth_error_In _ _ Hst)).
+    destruct (todo st); [reflexivity|discriminate]. }
+  rewrite Ht, app_nil_r in Hsplit. subst done.
+  assert (Hxa : In x (at_stop c2)).
+  { unfold c2. rewrite c28_at_stop_lemma by exact Hidle. rewrite <- Hfil in Hx. apply filter_In in Hx. tauto. }
+  rewrite E in Hs, Hxa, Hw |- *.
+  destruct (c28_all_written_lemma m ps NM (s1 ++ Stop :: s2) Hs x Hxa) as [H|H].
+  - apply filter_In. split; [exact H|]. eapply elems_from. exact Hx.
+  - rewrite Hw in H. inversion H.
 Qed.
 
-(* ------------------------------------------------------------------ where the code violates the property *)
+(* ------------------------------------------------------------------ what is still wrong *)
 Local Open Scope Z_scope.
 
-(* one producer, one line at an enabled level, accepted before stop() is called; stop() is called
-   before the consumer has looked at the queue: the consumer tests _stopping first and leaves,
-   stop() returns, the file is empty. *)
-Lemma c28_lost_lines_refuted_lemma :
+(* The window: the logger thread finds the queue empty; a line is accepted; stop() requests the
+   stop; the logger thread now tests _stopping and leaves although the queue holds the line. *)
+Lemma c28_stop_window_refuted_lemma :
   exists m ps sched,
     let c := run sched (init m ps) in
-    stopper c = SDone /\                                     (* stop() has returned *)
-    map rets (prods c) = [[false]] /\                        (* the submit call had completed ... *)
-    pushed c = [{| q_src := Some (O, O); q_text := [65] |}; {| q_src := None; q_text := [] |}] /\
-                                                             (* ... and was queued before stop's marker *)
-    file c = [] /\
+    no_marker m ps = true /\ stopper c = SDone /\
+    at_stop c = [{| q_src := Some (O, O); q_text := [65] |}] /\
+    map rets (prods c) = [[true]] /\
+    wrote c = [] /\ win c = [{| q_src := Some (O, O); q_text := [65] |}] /\
     file_complete m ps (observe c) = false.
 Proof.
-  exists 2, [[(1, [65])]], [P 0; Stop; Cons; Stop; Stop]. vm_compute. repeat split; reflexivity.
-Qed.
-
-(* everything is written, in order, the queue was drained before stop(): only the return value is wrong *)
-Lemma c28_return_refuted_lemma :
-  exists m ps sched,
-    let o := observe (run sched (init m ps)) in
-    file_sound m ps o = true /\ file_complete m ps o = true /\
-    o_rets o = [[false]] /\ rets_ok m ps (o_rets o) = false.
-Proof.
-  exists 2, [[(1, [65])]], (sched_for true 0 2 [] [[(1, [65])]]). vm_compute. repeat split; reflexivity.
+  exists 2, [[(1, [65])]], [Cons; P 0; Stop; Cons; Stop; Stop]. vm_compute. repeat split; reflexivity.
 Qed.
 
 (* a line with an empty text at an enabled level makes the consumer leave its loop (it is the
    stop marker): the lines behind it are never written, however long stop() is delayed *)
 Lemma c28_empty_line_refuted_lemma :
   exists m ps,
-    let o := run_case true 0 m [] ps in
+    let o := run_case m [] ps in
     o_stopped o = true /\ o_file o = [(1%nat, [65])] /\ file_complete m ps o = false.
 Proof.
   exists 2, [[(1, [65]); (1, []); (1, [66])]]. vm_compute. repeat split; reflexivity.
@@ -471,11 +662,15 @@ Qed.
 (* ------------------------------------------------------------------ non-vacuity *)
 Definition nv_ps : list prog := [[(1, [65]); (0, [66]); (1, [67])]; [(1, [68]); (4, [69])]].
 
+(* stop() requested while all four accepted lines are still in the queue and the logger thread has
+   not run at all: everything is written before stop() returns *)
 Lemma c28_nonvacuous_lemma :
-  let c1 := run (fst (sched_pushes 18 [1; 0; 1; 0]%nat nv_ps) ++ repeat Cons 15) (init 18 nv_ps) in
-  quiesced c1 = true /\
-  let c2 := run [Stop; Cons; Cons; Cons; Stop; Stop] c1 in
-  stopper c2 = SDone /\
+  no_marker 18 nv_ps = true /\
+  let c1 := run [P 1; P 0; P 1; P 0; P 0] (init 18 nv_ps) in
+  stopper c1 = SIdle /\ all_done c1 = true /\ length (queue c1) = 4%nat /\
+  let c2 := run (Stop :: repeat Cons 12 ++ [Stop; Stop]) (step c1 Stop) in
+  stopper c2 = SDone /\ win c2 = [] /\
   file c2 = [(1%nat, [68]); (2%nat, [65]); (3%nat, [69]); (4%nat, [67])] /\
-  map rets (prods c2) = [[false; true; false]; [false; false]].
+  map rets (prods c2) = [[true; true; true]; [true; true]] /\
+  c28_ok 18 nv_ps (observe c2) = true.
 Proof. vm_compute. repeat split; reflexivity. Qed.
